@@ -40,6 +40,20 @@ class Exec(Interp):
             r = S.decide_cmp(op, la, lb)
             if r is not None:
                 S.iv[s] = D.point(1 if r else 0)
+                # decided through facts, not intervals: no branch will refine the operand later, so a bound of one
+                # symbol against a constant is written into its interval now (it is entailed, hence sound); facts
+                # may be dropped at the next merge, intervals are not
+                d = la.sub(lb)
+                sg = d.single()
+                if sg is not None and abs(sg[1]) == 1 and op in ("Lt", "Le", "Gt", "Ge"):
+                    le0 = {("Lt", True): d.addc(1), ("Le", True): d, ("Ge", True): d.scale(-1), ("Gt", True): d.scale(-1).addc(1),
+                           ("Lt", False): d.scale(-1), ("Le", False): d.scale(-1).addc(1), ("Ge", False): d.addc(1), ("Gt", False): d}[(op, r)]
+                    x, k = le0.single()
+                    rx = self.st.range(x)
+                    if k == 1:  # x + c <= 0
+                        S.refine(x, D.rng(rx[0], -le0.c))
+                    else:  # -x + c <= 0
+                        S.refine(x, D.rng(le0.c, rx[1]))
             return Scalar(s)
         if op == "Cmp":
             sa, sb = self.sc(S, a), self.sc(S, b)
